@@ -204,3 +204,17 @@ func Describe(f ref.Frame) string {
 	}
 	return s
 }
+
+// ToLibEntry returns a shallow copy of a library frame so that a second write does not see
+// fields a first write may have filled in.
+func ToLibEntry(fr frame.Frame) frame.Frame {
+	switch ff := fr.(type) {
+	case *frame.V1Frame:
+		c := *ff
+		return &c
+	case *frame.V2Frame:
+		c := *ff
+		return &c
+	}
+	return fr
+}
